@@ -2,23 +2,46 @@
 EXTENDS RingFullSync
 
 CONSTANT Script
-VARIABLE opi
-mcvars == <<vars, opi>>
+VARIABLES opi, got   \* got[p]: values this thread dequeued (allocated) and has not given back yet
+mcvars == <<vars, opi, got>>
 
 E(v) == [op |-> "enq", v |-> v, i |-> 0]
 D    == [op |-> "deq", v |-> 0, i |-> 0]
 L    == [op |-> "len", v |-> 0, i |-> 0]
+A    == D                                         \* pool: alloc = dequeue a free id
+Fr   == [op |-> "free", v |-> 0, i |-> 0]         \* pool: give back the oldest id this thread owns (no-op if none)
+FrL  == [op |-> "free", v |-> 0, i |-> 1]         \* ... the newest one
 
 Script_2p2c == << <<E(11), E(12)>>, <<E(21), E(22)>>, <<D, D>>, <<D, D>> >>
 Script_2p1c == << <<E(11), E(12)>>, <<E(21), E(22)>>, <<D, D>> >>
 Script_1p2c == << <<E(11), E(12), E(13)>>, <<D, D>>, <<D>> >>
 Script_len  == << <<E(11), E(12), E(13)>>, <<D, L, D>>, <<L, D>> >>
 
-MCInit == Init /\ opi = [p \in Procs |-> 1]
+\* pool allocator scripts (Prefill = TRUE): exhaust-and-refill from several threads
+Script_pool3 == << <<A, A, Fr, A, Fr, Fr>>, <<A, Fr, A, Fr>>, <<A, A, FrL, Fr>> >>
+Script_pool3s == << <<A, A, Fr, A>>, <<A, Fr, A>>, <<A, FrL>> >>
+Script_pool2 == << <<A, A, A, Fr, Fr, A>>, <<A, Fr, A, A, Fr, Fr>> >>
+Script_pool4 == << <<A, Fr, A, Fr>>, <<A, Fr, A, Fr>>, <<A, Fr>>, <<A, Fr>> >>
+
+MCInit == Init /\ opi = [p \in Procs |-> 1] /\ got = [p \in Procs |-> <<>>]
 MCCall(p) == /\ opi[p] <= Len(Script[p + 1])
-             /\ Call(p, Script[p + 1][opi[p]])
+             /\ pc[p] = "idle"
              /\ opi' = [opi EXCEPT ![p] = @ + 1]
+             /\ LET o == Script[p + 1][opi[p]] IN
+                IF o.op = "free"
+                THEN IF got[p] = <<>> THEN UNCHANGED <<vars, got>>
+                     ELSE LET k == IF o.i = 1 THEN Len(got[p]) ELSE 1 IN
+                          /\ Call(p, E(got[p][k]))
+                          /\ got' = [got EXCEPT ![p] = SubSeq(@, 1, k - 1) \o SubSeq(@, k + 1, Len(@))]
+                ELSE Call(p, o) /\ UNCHANGED got
+
+MCStep(p) == /\ Step(p)
+             /\ UNCHANGED opi
+             /\ got' = IF pc[p] = "ret" /\ reg[p].op.op = "deq" /\ reg[p].res.ok THEN [got EXCEPT ![p] = Append(@, reg[p].res.v)] ELSE got
+
+\* C13: no id is owned twice
+InvOneOwner == \A p1, p2 \in Procs : \A i \in 1..Len(got[p1]) : \A j \in 1..Len(got[p2]) : (p1 # p2 \/ i # j) => got[p1][i] # got[p2][j]
 AllDone == \A p \in Procs : pc[p] = "idle" /\ opi[p] > Len(Script[p + 1])
-MCNext == \/ \E p \in Procs : MCCall(p) \/ (Step(p) /\ UNCHANGED opi)
+MCNext == \/ \E p \in Procs : MCCall(p) \/ MCStep(p)
           \/ (AllDone /\ UNCHANGED mcvars)
 =============================================================================
